@@ -603,12 +603,17 @@ def evaluate(ctx, case, obs, answers, aspects, checks, signatures):
     if any(o["err"] for o in obs):
         ctx.count("cases-with-exception")
     ctx.case({"mode": case["mode"], "nodes": case["nodes"], "ops": case["ops"]}, nontrivial=is_nontrivial(case, obs))
+    if any((o.get("err") or "").startswith("invalid-op") for o in obs):
+        ctx.count("recorded-schedule-not-applicable")       # see asynccheck.evaluate
+        return
     probs = [p for p in oracle(case, obs, check=checks) if p[0].split(":")[0] in signatures]
     if probs:
         sig, what = probs[0]
 
         def still(trial):
             o2 = rerun(trial, flavour=case.get("flavour", "future"))
+            if any((o.get("err") or "").startswith("invalid-op") for o in o2):
+                return False
             return any(p[0] == sig for p in oracle(trial, o2, check=checks))
         small = shrink(case, still)
         ctx.failure(sig, what, small, oracle=sig)
